@@ -65,6 +65,27 @@ class Result(object):
         self.findings.append(f)
         return f
 
+    def soft_floor(self, what, measured, floor):
+        """Floor on the number of abstract traces / events an interpretive rule managed to examine: falling below it means
+        the rule could not look at the construct in its present shape - recorded as undecided, not an error."""
+        self.analysed[what] = measured
+        self.floors.append((what, measured, floor))
+        if measured < floor:
+            self.notes.append('undecided: %s = %d < %d (construct not in a shape the interpreter can follow)' % (what, measured, floor))
+            self.ob('floor', what, 'traces examined', True, 'undecided: %d < %d' % (measured, floor))
+        return measured >= floor
+
+    def absorb(self, rule, tmp, prefix=''):
+        """Re-emit under ``rule`` the obligations and findings a rule group of another property recorded into ``tmp``
+        (cross-property borrowing: the construct is a necessary condition of both properties)."""
+        for o in tmp.obligations:
+            self.ob(rule, o['site'], o['case'], o['verdict'] == 'discharged', o.get('detail'))
+        for f in tmp.findings:
+            self.violation(rule, f.construct, f.where, (prefix + f.why) if prefix else f.why, case=f.case, func=f.func)
+        self.notes.extend(tmp.notes)
+        for (w, m_, fl) in tmp.floors:
+            self.analysed[w] = m_
+
     def floor(self, what, measured, floor):
         """Instance floor: fewer instances than confirmed by hand => the rule would pass vacuously."""
         from .model import AnalysisError
